@@ -64,6 +64,7 @@ type Field struct {
 	Type       *Type
 	Index      int  // message / union index
 	Deprecated bool // message fields only
+	Tags       []string // tag comments (//[tag(...)]) written before the field: struct tags under the field-tags option
 }
 
 // Record kinds.
@@ -95,6 +96,7 @@ type Schema struct {
 	Name    string
 	Enums   []*Enum
 	Records []*Record // in definition order (dependencies first)
+	Reverse bool      // the schema text lists the records last to first (every reference is a forward reference)
 	Tags    []string  // what this schema is in the basis for
 }
 
@@ -162,7 +164,14 @@ func (s *Schema) Bop() string {
 		}
 		sb.WriteString("}\n\n")
 	}
-	for _, r := range s.Records {
+	recs := s.Records
+	if s.Reverse {
+		recs = nil
+		for i := len(s.Records) - 1; i >= 0; i-- {
+			recs = append(recs, s.Records[i])
+		}
+	}
+	for _, r := range recs {
 		writeRecord(&sb, r, "")
 		sb.WriteString("\n")
 	}
@@ -178,12 +187,18 @@ func writeRecord(sb *strings.Builder, r *Record, ind string) {
 		}
 		fmt.Fprintf(sb, "%s%sstruct %s {\n", ind, ro, r.Name)
 		for _, f := range r.Fields {
+			for _, t := range f.Tags {
+				fmt.Fprintf(sb, "%s    //[tag(%s)]\n", ind, t)
+			}
 			fmt.Fprintf(sb, "%s    %s %s;\n", ind, f.Type.Bop(), f.Name)
 		}
 		fmt.Fprintf(sb, "%s}\n", ind)
 	case Message:
 		fmt.Fprintf(sb, "%smessage %s {\n", ind, r.Name)
 		for _, f := range r.Fields {
+			for _, t := range f.Tags {
+				fmt.Fprintf(sb, "%s    //[tag(%s)]\n", ind, t)
+			}
 			if f.Deprecated {
 				fmt.Fprintf(sb, "%s    [deprecated(\"old\")]\n", ind)
 			}
@@ -345,6 +360,13 @@ func Enumerate(tier string, seed int64) []*Schema {
 		st("Inner", fd("x", P("int32")), fd("s", P("string"))),
 		st("Outer", fd("a", R("Inner")), fd("b", A(R("Inner"))), fd("z", P("uint8"))),
 	}}, "nested-records")
+	// 5a. forward references three levels deep: the text lists Route, Leg, Stop, Pos (the generator's
+	// size bookkeeping must reach a fixed point over definitions that come later in the file)
+	add(&Schema{Name: "sfwd", Reverse: true, Records: []*Record{
+		st("Pos", fd("lat", P("float64")), fd("lon", P("float64"))),
+		st("Stop", fd("at", R("Pos"))),
+		st("Leg", fd("from", R("Stop")), fd("to", R("Stop"))),
+		st("Route", fd("legs", A(R("Leg"))), fd("id", P("uint32")))}}, "records", "struct", "forward-refs")
 	// 5b. a record that ends in an empty record (its decoder's last call reads nothing), and an empty message
 	// (five bytes on the wire: length prefix and terminator) alone, in a struct and in a message
 	add(&Schema{Name: "stail", Records: []*Record{st("E1"), st("Tl", fd("id", P("int32")), fd("name", P("string")), fd("end", R("E1")))}}, "empty", "struct")
@@ -383,6 +405,11 @@ func Enumerate(tier string, seed int64) []*Schema {
 	add(&Schema{Name: "smap2", Records: []*Record{
 		st("Mv", fd("x", P("int32"))),
 		st("Sm2", fd("a", M("guid", R("Mv"))), fd("b", M("int64", M("string", P("bool")))), fd("c", A(M("uint16", P("uint16")))), fd("z", P("byte")))}}, "maps", "nested-maps")
+	// 10b. maps in a message (the stream decoder of message fields has its own map branch) and a map whose key
+	// and value both have a variable size (found unreached by cmd/basiscov)
+	add(&Schema{Name: "mmap", Records: []*Record{
+		msg("Mq", fd("a", M("string", P("string"))), fd("b", M("uint32", A(P("int16")))), fd("z", P("uint8"))),
+		st("Sq", fd("d", M("string", P("string"))), fd("z", P("byte")))}}, "maps", "message")
 	if tier == "thorough" {
 		// maps keyed by every primitive
 		for i, k := range Prims {
@@ -392,6 +419,17 @@ func Enumerate(tier string, seed int64) []*Schema {
 		for i, p := range Prims {
 			add(&Schema{Name: fmt.Sprintf("deep%d", i), Records: []*Record{
 				msg("Dm", fd("a", A(A(P(p)))), fd("b", A(P(p))), fd("z", P("bool")))}}, "nested-arrays", "message")
+		}
+	}
+	// tag comments, so that the field-tags option has something to act on (cmd/basiscov showed the tag writer
+	// unreached): every field of the records of these schemas, union branches included
+	for _, sc := range out {
+		if sc.Name == "srec" || sc.Name == "mmix" || sc.Name == "uni" {
+			for _, r := range sc.AllRecords() {
+				for i := range r.Fields {
+					r.Fields[i].Tags = []string{fmt.Sprintf("json:%q", r.Fields[i].Name+",omitempty"), "boolean"}
+				}
+			}
 		}
 	}
 	sort.SliceStable(out, func(i, j int) bool { return false })
